@@ -1,6 +1,7 @@
 package main
 
 import (
+	"go/types"
 	"go/token"
 	"strings"
 
@@ -200,15 +201,22 @@ func runC14(c *Ctx) {
 					return
 				}
 				_, g := c.Guarded(in, EqNil(Extract("1", Is(hcall))), true)
+				// the CID notified is the root CID the handler was given (positional, or in a parameter object — then
+				// read back from it only if the handler cannot have written it)
 				sameCid := false
-				for _, a := range x.Args {
-					for _, ha := range hcall.Args {
-						if a.Op != "extract" && ha.Op != "param" && Same(a, ha) {
-							sameCid = true
-						}
-						if a.V != nil && a.V == ha.V {
-							sameCid = true
-						}
+				var root *X
+				if hc, ok := hcall.V.(*ssa.Call); ok {
+					root = slotOf(c.SlotArgs(CallSite{In: hc, Fn: f.SSA, X: hcall}), "go-cid.Cid", 0)
+				}
+				isCid := func(a *X) bool {
+					return a != nil && a.V != nil && strings.HasSuffix(types.Unalias(a.V.Type()).String(), "go-cid.Cid")
+				}
+				for i, a := range x.Args {
+					if i == 0 || root == nil || !(isCid(a) || isCid(root)) {
+						continue
+					}
+					if Same(a, root) || (a.V != nil && a.V == root.V) {
+						sameCid = true
 					}
 				}
 				c.Check(g && sameCid, "C14.N5-event-fields", key, in.Pos(), "notified CID is the one synced, count is the handler's result, call dominated by handler err == nil",
